@@ -8,12 +8,15 @@ variants, two SAN encoders) and observes the real code at four layers: ReceptorV
 the verifier installed by Prepare*Config/GetClientTLSConfig, a crypto/tls handshake, and
 DialContext/Accept between real nodes for the stream-listener rule.
 """
-import json, os
+import json, os, re
 import vlib, vtables
 
 WITNESSES = ["W_NoAccept", "W_NoOnlyChain", "W_NoOnlyTime", "W_NoOnlyUsage", "W_NoOnlyPin", "W_NoOnlyName", "W_NoStricter",
              "W_NoSeveralAccept", "W_NoStreamAccept", "W_NoStreamOnlyName", "W_NoColonSrcAccept", "W_NoColonPrefixRefused",
-             "W_NoPinnedThenUnpinned", "W_NoUnpinnedThenPinned", "W_NoTwoAlgs"]
+             "W_NoPinnedThenUnpinned", "W_NoUnpinnedThenPinned", "W_NoTwoAlgs",
+             "W_NoExpiresWhileAlive", "W_NoBecomesValid"]
+# counter-example variants of the model (one constant each) and the invariant each of them must violate
+VARIANTS = {"KF_ColonSplit": "CodeWithinProp", "KF_DigestCachedAcrossCalls": "HistoryIndependent", "KF_TimeFrozenAtCreation": "ValidityJudgedAtHandshake"}
 CONDS = ["chain", "time", "usage", "pin", "name"]
 
 
@@ -24,23 +27,22 @@ def run(tier, seed, replay=None):
     cfg = "TLSVerify_quick.cfg" if tier == "quick" else "TLSVerify_full.cfg"
     r = vlib.tlc_must_pass("TLSVerify", cfg, wd, timeout=1800, workers=1)
     wit = vtables.witnesses_once("TLSVerify", "TLSVerify_wit.cfg", WITNESSES, wd)
-    # the legacy listener rule (expected name = text before the first ':') must be rejected by the model
-    cs = vlib.tlc("TLSVerify", "TLSVerify_colonsplit.cfg", wd, workers=1, timeout=600)
-    if cs.violated != "CodeWithinProp":
-        raise vlib.Inconclusive("the model with KF_ColonSplit = TRUE does not violate CodeWithinProp (violated=%s)" % cs.violated)
-    wit.append("CodeWithinProp@KF_ColonSplit")
-    # a verifier instance that remembers the first certificate's digest must be rejected by the model
-    dc = vlib.tlc("TLSVerify", "TLSVerify_digestcache.cfg", wd, workers=1, timeout=600)
-    if dc.violated != "HistoryIndependent":
-        raise vlib.Inconclusive("the model with KF_DigestCachedAcrossCalls = TRUE does not violate HistoryIndependent (violated=%s)" % dc.violated)
-    wit.append("HistoryIndependent@KF_DigestCachedAcrossCalls")
+    # the counter-example variants (legacy ':' split in the listener, digest kept across calls, clock read at creation) live in
+    # disjoint vector families; one TLC run with all of them switched on must violate every corresponding invariant
+    vr = vlib.tlc("TLSVerify", "TLSVerify_variants.cfg", wd, workers=1, timeout=600, extra=["-continue"])
+    violated = set(re.findall(r"Invariant (\S+) is violated", vr.output))
+    for const, inv in VARIANTS.items():
+        if inv not in violated:
+            raise vlib.Inconclusive("the model with %s = TRUE does not violate %s (violated: %s)" % (const, inv, sorted(violated)))
+        wit.append("%s@%s" % (inv, const))
     vectors = os.path.join(r.dir, "vectors.ndjson")
     recs = vlib.read_ndjson(vectors)
     if len(recs) != r.distinct:
         raise vlib.Inconclusive("vector file has %d lines but TLC found %d distinct states" % (len(recs), r.distinct))
     ntable = sum(1 for x in recs if x["fam"] == "table")
     nseq = sum(1 for x in recs if x["fam"] == "seq")
-    nstream = len(recs) - ntable - nseq
+    nclock = sum(1 for x in recs if x["fam"] == "clock")
+    nstream = len(recs) - ntable - nseq - nclock
     single = {c: sum(1 for x in recs if x["fam"] == "table" and x["only"] == c) for c in CONDS}
     if min(single.values()) == 0:
         raise vlib.Inconclusive("no single-failure vector for some condition: %s" % single)
@@ -49,10 +51,13 @@ def run(tier, seed, replay=None):
         vectors = os.path.join(wd, "replay.ndjson")
         vlib.write_ndjson(vectors, [vec])
         recs, ntable, nstream, nseq = [vec], int(vec["fam"] == "table"), int(vec["fam"] == "stream"), int(vec["fam"] == "seq")
+        nclock = int(vec["fam"] == "clock")
     vt = vlib.build_harness("vtab")
     mesh = 0 if (tier != "quick" or replay) else 64
     extra = 400 if tier == "quick" else 6000
-    res = vlib.harness_json(vt, ["tls", "-vectors", vectors, "-seed", str(seed), "-mesh", str(mesh), "-handshake-extra", str(extra)],
+    clock_n, clock_step = (72, "2s") if tier == "quick" else (0, "4s")
+    res = vlib.harness_json(vt, ["tls", "-vectors", vectors, "-seed", str(seed), "-mesh", str(mesh), "-handshake-extra", str(extra),
+                                 "-clock", str(clock_n), "-clock-step", clock_step],
                             wd, timeout=3000)
     if res.get("inconclusive"):
         raise vlib.Inconclusive("; ".join(res["inconclusive"][:5]))
@@ -61,6 +66,10 @@ def run(tier, seed, replay=None):
     if c.get("vectors_table", 0) != ntable or c.get("vectors_stream", 0) != want_stream or c.get("vectors_seq", 0) != nseq:
         raise vlib.Inconclusive("harness evaluated %d/%d table, %d/%d stream and %d/%d sequence vectors" %
                                 (c.get("vectors_table", 0), ntable, c.get("vectors_stream", 0), want_stream, c.get("vectors_seq", 0), nseq))
+    want_clock = nclock if clock_n == 0 else min(clock_n, nclock)
+    if c.get("clock_selected", 0) != want_clock or c.get("vectors_clock", 0) < (3 * want_clock) // 4:
+        raise vlib.Inconclusive("only %d of %d time-line vectors could be run within their ticks (%d selected)" %
+                                (c.get("vectors_clock", 0), want_clock, c.get("clock_selected", 0)))
     for viol in res["violations"]:
         v.violation(viol["sig"], viol["what"], viol["replay"])
     if not replay:
@@ -73,6 +82,10 @@ def run(tier, seed, replay=None):
             for k in ("pinned_then_unpinned_refused_", "unpinned_then_pinned_accepted_"):
                 if c.get(k + layer, 0) == 0 and not res["violations"]:
                     raise vlib.Inconclusive("no %s%s observation: the history-independence part is vacuous" % (k, layer))
+        for layer in ("rvf-clock", "installed-client-clock", "installed-server-clock", "handshake-client-clock"):
+            for cls in ("valid_at_creation_expired_at_handshake", "notyet_at_creation_valid_at_handshake"):
+                if c.get("clock_%s_%s" % (cls, layer), 0) == 0 and not res["violations"]:
+                    raise vlib.Inconclusive("no %s observation at layer %s: the time-line part is vacuous" % (cls, layer))
         for cond in CONDS:
             if c.get("only_%s_rvf" % cond, 0) == 0:
                 raise vlib.Inconclusive("condition %s was never the only reason for a refusal" % cond)
@@ -87,10 +100,12 @@ def run(tier, seed, replay=None):
                 "utils.MakeReceptorSAN and an independent DER encoder) and judged by the real ReceptorVerifyFunc, by the verifier installed through "
                 "Prepare*Config+GetClientTLSConfig, and (all vectors with at most one failing condition plus a seeded sample) by a crypto/tls "
                 "handshake; stream vectors are dialled on a real mesh; every history vector is played on one ReceptorVerifyFunc instance, on one configuration from "
-                "Prepare*Config (+GetClientTLSConfig / GetServerTLSConfig per connection) and through handshakes sharing one configuration, each call compared with the table. distinct = distinct (vector, name variant, encoder) triples evaluated "
-                "plus stream vectors dialled plus history vectors" % cfg,
+                "Prepare*Config (+GetClientTLSConfig / GetServerTLSConfig per connection) and through handshakes sharing one configuration, each call compared with the table; time-line vectors (verifier created at one tick, handshakes at later ticks, certificate windows with "
+                "second-granular bounds between the ticks) are run in real time on kept verifier/configuration objects. distinct = distinct (vector, name variant, encoder) triples evaluated "
+                "plus stream vectors dialled plus history vectors plus time-line vectors run" % cfg,
         "samples": res["samples"][:10], "exhaustive": True,
-        "vectors": len(recs), "vectors_table": ntable, "vectors_stream": nstream, "vectors_seq": nseq, "seq_calls": c.get("seq_calls", 0),
+        "vectors": len(recs), "vectors_table": ntable, "vectors_stream": nstream, "vectors_seq": nseq, "vectors_clock": nclock, "clock_vectors_run": c.get("vectors_clock", 0), "clock_wall_ms": c.get("clock_wall_ms", 0),
+        "clock_observations": {k[6:]: n for k, n in c.items() if k.startswith("clock_valid_at_creation_expired") or k.startswith("clock_notyet_at_creation_valid")}, "seq_calls": c.get("seq_calls", 0),
         "history_observations": {k: n for k, n in c.items() if k.startswith("pinned_then_unpinned_refused_") or k.startswith("unpinned_then_pinned_accepted_")},
         "stream_vectors_dialled": c.get("vectors_stream", 0),
         "single_failure_vectors": single,
@@ -102,7 +117,10 @@ def run(tier, seed, replay=None):
         "tlc": {"spec": "TLSVerify.tla", "cfg": cfg, "generated": r.generated, "distinct": r.distinct, "wall_s": round(r.wall, 1)},
     }
     return v.finish("model_checking", cov, assumptions=[
-        "Go crypto/x509 chain building and crypto/tls are trusted; time conditions use certificates 2 h beyond/before the validity window, not boundary instants",
+        "Go crypto/x509 chain building and crypto/tls are trusted; time conditions use certificates 2 h beyond/before the validity window in the table and "
+        "1 s (half a tick) in the time-line family, never the boundary instant itself",
+        "time-line family: real time passes (ticks of 2 s quick / 4 s thorough); an operation not completed within 0.8 s (1.6 s) of its tick is not judged; "
+        "the quick tier runs a stratified sample of 72 vectors (all 48 in which a certificate expires or becomes valid while the verifier lives)",
         "direction: real accepts => spec accepts (safety); spec(code) accepts => real accepts only for well-formed pin lists; a stricter implementation is counted, not reported",
         "pins are checked for sha224/256/384/512 of the leaf certificate; the configuration layer only takes 32- and 64-byte pins",
         "the stream-listener rule is observable only on a live mesh: quick tier dials a stratified sample (all vectors whose chain/time/usage are fine, plus a seeded sample), thorough dials all",
